@@ -51,6 +51,7 @@ enum Ext {
     A,      // engine.add_rule(aux rule depending on F, D)
     Z,      // engine.reset()
     F(Act), // engine.insert("T", go=1) [step 1]; reset(); fire_all() with the scripted action [step 2]
+    FG(Vec<Act>), // `F<a>+<a>[+<a>]`: the same, the fired rule's action returns SEVERAL ActionResults (in this order) in ONE firing
     K(u64), // engine.update(h, kill=true); reset(); fire_all(): GRL rule `when F.kill == true then retract($F)`
     W,      // engine.reset_with_deffacts()
     Lk(Vec<u64>), // engine.resolve_premise_keys(["<type>.id=<p>", ..]) must find the live premises; then insert_logical
@@ -65,9 +66,45 @@ enum Op {
     X(u64),
     R(u64),
     C,
+    Q(u64), // `Q<f>` = PROMOTE a fact to a stated one: tms_mut().remove_justifications(f) + tms_mut().add_explicit_justification(f)
     Ext(Ext),
 }
 // Ext::Lk(ps): insert_logical after resolve_premise_keys
+
+fn parse_act(t: &str) -> Option<Act> {
+    if t.is_empty() {
+        return None;
+    }
+    let (a, arg) = t.split_at(1);
+    Some(match a {
+        "r" => Act::R(arg.parse().ok()?),
+        "t" => Act::T(arg.parse().ok()?),
+        "u" => Act::U(arg.parse().ok()?),
+        "i" if arg.is_empty() => Act::I,
+        "n" if arg.is_empty() => Act::N,
+        "g" if arg.is_empty() => Act::G,
+        "c" if arg.is_empty() => Act::C,
+        "s" if arg.is_empty() => Act::S,
+        "m" if arg.is_empty() => Act::M,
+        "l" => Act::L(parse_nums(arg)?),
+        _ => return None,
+    })
+}
+
+fn show_act(a: &Act) -> String {
+    match a {
+        Act::R(h) => format!("r{}", h),
+        Act::T(h) => format!("t{}", h),
+        Act::U(h) => format!("u{}", h),
+        Act::I => "i".into(),
+        Act::N => "n".into(),
+        Act::G => "g".into(),
+        Act::C => "c".into(),
+        Act::S => "s".into(),
+        Act::M => "m".into(),
+        Act::L(ps) => format!("l{}", join_nums(ps)),
+    }
+}
 
 fn parse_op(t: &str) -> Option<Op> {
     if t.is_empty() {
@@ -86,6 +123,7 @@ fn parse_op(t: &str) -> Option<Op> {
         }
         "X" => Op::X(rest.parse().ok()?),
         "R" => Op::R(rest.parse().ok()?),
+        "Q" => Op::Q(rest.parse().ok()?),
         "N" if rest.is_empty() => Op::Ext(Ext::N),
         "P" if rest.is_empty() => Op::Ext(Ext::P),
         "D" if rest.is_empty() => Op::Ext(Ext::D),
@@ -95,22 +133,14 @@ fn parse_op(t: &str) -> Option<Op> {
         "W" if rest.is_empty() => Op::Ext(Ext::W),
         "U" => Op::Ext(Ext::U(rest.parse().ok()?)),
         "K" => Op::Ext(Ext::K(rest.parse().ok()?)),
-        "F" if !rest.is_empty() => {
-            let (a, arg) = rest.split_at(1);
-            Op::Ext(Ext::F(match a {
-                "r" => Act::R(arg.parse().ok()?),
-                "t" => Act::T(arg.parse().ok()?),
-                "u" => Act::U(arg.parse().ok()?),
-                "i" if arg.is_empty() => Act::I,
-                "n" if arg.is_empty() => Act::N,
-                "g" if arg.is_empty() => Act::G,
-                "c" if arg.is_empty() => Act::C,
-                "s" if arg.is_empty() => Act::S,
-                "m" if arg.is_empty() => Act::M,
-                "l" => Act::L(parse_nums(arg)?),
-                _ => return None,
-            }))
+        "F" if rest.contains('+') => {
+            let acts: Vec<Act> = rest.split('+').map(parse_act).collect::<Option<Vec<_>>>()?;
+            if acts.len() < 2 || acts.contains(&Act::M) {
+                return None;
+            }
+            Op::Ext(Ext::FG(acts))
         }
+        "F" if !rest.is_empty() => Op::Ext(Ext::F(parse_act(rest)?)),
         _ => return None,
     })
 }
@@ -123,6 +153,7 @@ fn show_op(o: &Op) -> String {
         Op::J(f, ps) => format!("J{}:{}", f, join_nums(ps)),
         Op::X(f) => format!("X{}", f),
         Op::R(h) => format!("R{}", h),
+        Op::Q(h) => format!("Q{}", h),
         Op::C => "C".into(),
         Op::Ext(e) => match e {
             Ext::N => "N".into(),
@@ -135,18 +166,8 @@ fn show_op(o: &Op) -> String {
             Ext::U(h) => format!("U{}", h),
             Ext::K(h) => format!("K{}", h),
             Ext::Lk(ps) => format!("Lk{}", join_nums(ps)),
-            Ext::F(a) => match a {
-                Act::R(h) => format!("Fr{}", h),
-                Act::T(h) => format!("Ft{}", h),
-                Act::U(h) => format!("Fu{}", h),
-                Act::I => "Fi".into(),
-                Act::N => "Fn".into(),
-                Act::G => "Fg".into(),
-                Act::C => "Fc".into(),
-                Act::S => "Fs".into(),
-                Act::M => "Fm".into(),
-                Act::L(ps) => format!("Fl{}", join_nums(ps)),
-            },
+            Ext::F(a) => format!("F{}", show_act(a)),
+            Ext::FG(acts) => format!("F{}", acts.iter().map(show_act).collect::<Vec<_>>().join("+")),
         },
     }
 }
@@ -177,6 +198,7 @@ fn rule_names() -> &'static Vec<String> {
 
 fn is_logical_tok(o: &Op) -> bool {
     matches!(o, Op::L(_) | Op::J(..) | Op::Ext(Ext::Lk(_)) | Op::Ext(Ext::F(Act::L(_))))
+        || matches!(o, Op::Ext(Ext::FG(acts)) if matches!(acts[0], Act::L(_)))
 }
 
 /// the operations of a case and, per operation, the index of the rule name its token selects (`None`: the default name)
@@ -219,17 +241,29 @@ fn has_ext(ops: &[Op]) -> bool {
 
 /// the fact types of the handles an operation creates, in creation order (F / D: the shared types of explicit / logical
 /// facts, N: a type of its own, P: the template type, T: trigger facts)
-fn kinds_of(o: &Op) -> &'static [u8] {
-    match o {
+fn kinds_of(o: &Op) -> Vec<u8> {
+    let k: &[u8] = match o {
         Op::I | Op::E => b"F",
         Op::L(_) | Op::Ext(Ext::Lk(_)) => b"D",
         Op::Ext(Ext::N) => b"N",
         Op::Ext(Ext::P) | Op::Ext(Ext::D) | Op::Ext(Ext::G) | Op::Ext(Ext::W) => b"P",
         Op::Ext(Ext::F(Act::I)) => b"TF",
         Op::Ext(Ext::F(Act::L(_))) => b"TD",
+        Op::Ext(Ext::FG(acts)) => {
+            let mut v = vec![b'T'];
+            for a in acts {
+                match a {
+                    Act::I => v.push(b'F'),
+                    Act::L(_) => v.push(b'D'),
+                    _ => {}
+                }
+            }
+            return v;
+        }
         Op::Ext(Ext::F(_)) => b"T",
         _ => b"",
-    }
+    };
+    k.to_vec()
 }
 
 fn kind_at(kinds: &[u8], h: u64) -> u8 {
@@ -261,7 +295,7 @@ fn eff_target(kinds: &[u8], o: &Op) -> Option<u64> {
 
 /// universe of one history (the driver computes the same number: Spec.universeOf of the desugared operations)
 fn universe_seg(ops: &[Op]) -> u64 {
-    let kinds: Vec<u8> = ops.iter().flat_map(|o| kinds_of(o).iter().copied()).collect();
+    let kinds: Vec<u8> = ops.iter().flat_map(|o| kinds_of(o)).collect();
     let ins = kinds.len() as u64;
     let mut mx = 0u64;
     let top = |ps: &Vec<u64>| ps.iter().copied().max().unwrap_or(0);
@@ -270,9 +304,19 @@ fn universe_seg(ops: &[Op]) -> u64 {
             Op::I | Op::E | Op::C => {}
             Op::L(ps) => mx = mx.max(top(ps)),
             Op::J(f, ps) => mx = mx.max(*f).max(top(ps)),
-            Op::X(f) | Op::R(f) => mx = mx.max(*f),
+            Op::X(f) | Op::R(f) | Op::Q(f) => mx = mx.max(*f),
             Op::Ext(Ext::F(Act::R(h))) => mx = mx.max(*h),
             Op::Ext(Ext::F(Act::L(ps))) | Op::Ext(Ext::Lk(ps)) => mx = mx.max(top(ps)),
+            Op::Ext(Ext::FG(acts)) => {
+                for a in acts {
+                    match a {
+                        Act::R(h) => mx = mx.max(*h),
+                        Act::L(ps) => mx = mx.max(top(ps)),
+                        Act::T(h) => mx = mx.max(if kind_at(&kinds, *h) == b'N' { *h } else { 0 }),
+                        _ => {}
+                    }
+                }
+            }
             Op::Ext(_) => mx = mx.max(eff_target(&kinds, o).unwrap_or(0)),
         }
     }
@@ -288,7 +332,7 @@ fn hs(v: &[u64]) -> Vec<FactHandle> {
 }
 
 /// (the ActionResult the next firing returns, a value the action writes into F.v / D.w first — 0 = it modifies nothing)
-type Script = Arc<Mutex<(Option<ActionResult>, i64)>>;
+type Script = Arc<Mutex<(Vec<ActionResult>, i64)>>;
 
 /// what a case with reach ops needs on the engine before the first fact: the trigger rule `act` (built through the API; its
 /// action returns the scripted ActionResult), the GRL rules killF / killD (`retract($F)`), the template P and the deffacts `one`
@@ -306,7 +350,7 @@ fn setup_engine(eng: &mut IncrementalEngine, script: &Script) {
                 facts.set("D.w", FactValue::Integer(g.1));
                 g.1 = 0;
             }
-            if let Some(a) = g.0.take() {
+            for a in g.0.drain(..) {
                 results.add(a);
             }
         }),
@@ -481,7 +525,7 @@ fn exec(case: &str) -> String {
     let Some((ops, names)) = parse_case_named(case) else { return "bad-case".into() };
     let k = universe(&ops);
     let ext = has_ext(&ops);
-    let script: Script = Arc::new(Mutex::new((None, 0)));
+    let script: Script = Arc::new(Mutex::new((Vec::new(), 0)));
     let mut r = Run {
         eng: IncrementalEngine::new(),
         twin: TruthMaintenanceSystem::new(),
@@ -526,6 +570,17 @@ fn exec(case: &str) -> String {
                 Ok(()) => r.retracted(*h, true),
                 Err(_) => "err".to_string(),
             },
+            Op::Q(f) => {
+                // promote a derived fact to a stated one: its recorded justifications go, an explicit one is recorded
+                let h = FactHandle::new(*f);
+                r.eng.tms_mut().remove_justifications(h);
+                r.eng.tms_mut().add_explicit_justification(h);
+                r.twin.remove_justifications(h);
+                r.twin.add_explicit_justification(h);
+                let js = r.eng.tms().get_justifications(h);
+                let ok = js.len() == 1 && js[0].justification_type == rust_rule_engine::rete::tms::JustificationType::Explicit;
+                if ok { "u".to_string() } else { "u!promote".to_string() }
+            }
             Op::C => {
                 r.eng.working_memory_mut().clear_modification_tracking();
                 let wm = r.eng.working_memory();
@@ -607,6 +662,93 @@ fn exec(case: &str) -> String {
                     let flag = if ok != was || fired.iter().filter(|n| n.starts_with("kill")).count() != want { "!fire" } else { "" };
                     format!("{}{}", r.retracted(*h, armed), flag)
                 }
+                Ext::FG(acts) => {
+                    // step 1: the trigger fact
+                    let mut d = data_id(0, r.next());
+                    d.set("go", FactValue::Integer(1));
+                    let h = r.eng.insert("T".to_string(), d);
+                    let res = r.created(h, "T", true, &[]);
+                    r.observe(res);
+                    // step 2: the rule fires ONCE, its action returns all the results, in this order
+                    let mut next = r.types.len() as u64 + 1;
+                    let before: Vec<u64> = (1..next).filter(|x| r.present(*x)).collect();
+                    let mut results = Vec::new();
+                    // RetractByType names a type: resolved against the types known when the action runs
+                    let mut tys: Vec<Option<String>> = Vec::new();
+                    for a in acts {
+                        tys.push(None);
+                        results.push(match a {
+                            Act::R(x) => ActionResult::Retract(FactHandle::new(*x)),
+                            Act::T(x) => {
+                                let ty = r.types.get((*x as usize).wrapping_sub(1)).cloned().unwrap_or_else(|| "none".to_string());
+                                let ty = if ty.starts_with('N') { ty } else { "none".to_string() };
+                                *tys.last_mut().unwrap() = Some(ty.clone());
+                                ActionResult::RetractByType(ty)
+                            }
+                            Act::I => {
+                                next += 1;
+                                ActionResult::InsertFact { fact_type: "F".to_string(), data: data_id(8, next - 1) }
+                            }
+                            Act::L(ps) => {
+                                next += 1;
+                                ActionResult::InsertLogicalFact { fact_type: "D".to_string(), data: data_id(9, next - 1), rule_name: r.rule_name("rule"), premises: hs(ps) }
+                            }
+                            Act::U(x) => ActionResult::Update(FactHandle::new(*x)),
+                            Act::N | Act::M => ActionResult::None,
+                            Act::G => ActionResult::ActivateAgendaGroup("side".to_string()),
+                            Act::C => ActionResult::CallFunction { function_name: "nofn".to_string(), args: vec!["x".to_string()] },
+                            Act::S => ActionResult::ScheduleRule { rule_name: "act".to_string(), delay_ms: 5 },
+                        });
+                    }
+                    *script.lock().unwrap() = (results, 0);
+                    r.eng.reset();
+                    let fired = r.eng.fire_all();
+                    let mut flag = if fired.iter().filter(|n| *n == "act").count() != 1 || !script.lock().unwrap().0.is_empty() { "!fire" } else { "" };
+                    // the results of the single actions, in the order emitted: the states between them cannot be observed, so the
+                    // twin TMS is fed the same calls in that order (a handle counts as present when it was present before the
+                    // firing or created by it, and neither retracted nor reported in a cascade by the twin since)
+                    let mut made: Vec<u64> = Vec::new();
+                    let mut gone: Vec<u64> = Vec::new();
+                    let mut parts: Vec<String> = Vec::new();
+                    for (a, ty) in acts.iter().zip(&tys) {
+                        match a {
+                            Act::R(x) | Act::T(x) => {
+                                let was = ty.as_deref() != Some("none") && (before.contains(x) || made.contains(x)) && !gone.contains(x);
+                                if was {
+                                    let c = r.twin.retract_with_cascade(FactHandle::new(*x));
+                                    gone.push(*x);
+                                    gone.extend(c.iter().map(|y| y.id()));
+                                    parts.push(format!("ok:{}", join_nums(&c.iter().map(|y| y.id()).collect::<Vec<_>>())));
+                                } else {
+                                    parts.push("err".to_string());
+                                }
+                            }
+                            Act::I => {
+                                let nx = r.next();
+                                made.push(nx);
+                                parts.push(r.created(FactHandle::new(nx), "F", true, &[]));
+                            }
+                            Act::L(ps) => {
+                                let nx = r.next();
+                                made.push(nx);
+                                parts.push(r.created(FactHandle::new(nx), "D", false, ps));
+                            }
+                            _ => {}
+                        }
+                    }
+                    if r.eng.working_memory().stats().total_facts != r.types.len() {
+                        flag = "!handle";
+                    }
+                    // flags raised for a single result go behind the whole result (the driver splits the result at `+` first)
+                    let mut fl = String::new();
+                    for p in parts.iter_mut() {
+                        if let Some(i) = p.find('!') {
+                            fl.push_str(&p[i..]);
+                            p.truncate(i);
+                        }
+                    }
+                    if parts.is_empty() { format!("c{}{}", fl, flag) } else { format!("{}{}{}", parts.join("+"), fl, flag) }
+                }
                 Ext::F(a) => {
                     // step 1: the trigger fact
                     let mut d = data_id(0, r.next());
@@ -635,10 +777,10 @@ fn exec(case: &str) -> String {
                         Act::C => (ActionResult::CallFunction { function_name: "nofn".to_string(), args: vec!["x".to_string()] }, false),
                         Act::S => (ActionResult::ScheduleRule { rule_name: "act".to_string(), delay_ms: 5 }, false),
                     };
-                    *script.lock().unwrap() = (Some(result), if *a == Act::M { 100 + next as i64 } else { 0 });
+                    *script.lock().unwrap() = (vec![result], if *a == Act::M { 100 + next as i64 } else { 0 });
                     r.eng.reset();
                     let fired = r.eng.fire_all();
-                    let flag = if fired.iter().filter(|n| *n == "act").count() != 1 || script.lock().unwrap().0.is_some() { "!fire" } else { "" };
+                    let flag = if fired.iter().filter(|n| *n == "act").count() != 1 || !script.lock().unwrap().0.is_empty() { "!fire" } else { "" };
                     let res = match a {
                         Act::R(x) | Act::T(x) => r.retracted(*x, was),
                         Act::I => {
@@ -811,6 +953,23 @@ impl Sim {
                         self.apply(&Op::R(*h));
                     }
                 }
+                Ext::FG(acts) => {
+                    self.apply(&Op::I);
+                    *self.kinds.last_mut().unwrap() = b'T';
+                    for a in acts {
+                        match a {
+                            Act::R(h) => self.apply(&Op::R(*h)),
+                            Act::T(h) => {
+                                if kind_at(&self.kinds, *h) == b'N' {
+                                    self.apply(&Op::R(*h));
+                                }
+                            }
+                            Act::I => self.apply(&Op::I),
+                            Act::L(ps) => self.apply(&Op::L(ps.clone())),
+                            _ => {}
+                        }
+                    }
+                }
                 Ext::F(a) => {
                     self.apply(&Op::I);
                     *self.kinds.last_mut().unwrap() = b'T';
@@ -843,7 +1002,9 @@ impl Sim {
                 self.justs.push((self.n, false, ps.clone()));
             }
             Op::J(f, ps) => self.justs.push((*f, false, ps.clone())),
-            Op::X(f) => self.justs.push((*f, true, vec![])),
+            // promotion = an explicit justification as far as presence and support go (the removed logical ones could only
+            // have kept the fact, which the explicit one does anyway)
+            Op::X(f) | Op::Q(f) => self.justs.push((*f, true, vec![])),
             Op::C | Op::Ext(_) => {}
             Op::R(h) => {
                 if !self.live.contains(h) {
@@ -1632,7 +1793,7 @@ fn reach_shapes(out: &mut Vec<String>) {
         ("P L1 D L1,3 G L5 J2:5", 6),
     ];
     for (g, n) in graphs {
-        let kinds: Vec<u8> = parse_case(g).unwrap().iter().flat_map(|o| kinds_of(o).iter().copied()).collect();
+        let kinds: Vec<u8> = parse_case(g).unwrap().iter().flat_map(|o| kinds_of(o)).collect();
         for a in 1..=n {
             let mut ways = vec![format!("Fr{}", a), format!("K{}", a), format!("R{}", a)];
             if kind_at(&kinds, a) == b'N' {
@@ -1853,6 +2014,224 @@ fn rule_name_family(rng: &mut Rng, n: usize, tier: &str, out: &mut Vec<String>) 
     }
 }
 
+/// MULTI-RESULT FIRINGS: one firing whose action returns 2..3 ActionResults (`F<a>+<a>[+<a>]`). `process_action_results` applies
+/// them in the order emitted, each through the engine's own entry point, so the firing is the history of its results in that
+/// order (theorem actions_are_history). Over 12 small support graphs with a chosen premise `p` and another fact `q`: EVERY
+/// ordered selection of 2 and of 3 distinct results from {logical insert from p, logical insert from p and q, explicit insert,
+/// retract p, retract q, update p} (derive-then-consume, consume-then-derive [outside the domain: premise dead when recorded],
+/// insert between two retractions, ...), the 2-result firings also followed by a later retraction of every fact involved; plus
+/// random histories with one or two such firings whose results are drawn against the liveness simulation (premises live when
+/// recorded, also premises created earlier in the same firing).
+fn multi_result_firings(rng: &mut Rng, n: usize, tier: &str, out: &mut Vec<String>) {
+    let ctxs: Vec<(&str, u64, u64)> = vec![
+        ("I", 1, 0),
+        ("I I", 1, 2),
+        ("I L1", 1, 2),
+        ("I L1", 2, 1),
+        ("I L1 L2", 2, 1),
+        ("I L1 L2", 2, 3),
+        ("I L1 L2", 1, 3),
+        ("I I L1,2", 1, 2),
+        ("I I L1,2", 3, 1),
+        ("I L1 L1 L2,3", 2, 4),
+        ("N L1", 1, 2),
+        ("I L1 X2", 2, 1),
+        ("I I L1 J3:2", 1, 3),
+    ];
+    for (g, p, q) in ctxs {
+        let base = parse_case(g).unwrap();
+        let n0 = base.iter().map(|o| kinds_of(o).len() as u64).sum::<u64>();
+        let mut pool: Vec<Act> = vec![Act::L(vec![p]), Act::I, Act::R(p), Act::U(p)];
+        if q > 0 {
+            pool.push(Act::R(q));
+            pool.push(Act::L(vec![p, q]));
+        }
+        let m = pool.len();
+        for a in 0..m {
+            for b in 0..m {
+                if b == a {
+                    continue;
+                }
+                let two = vec![pool[a].clone(), pool[b].clone()];
+                let c2 = format!("{} {}", g, show_op(&Op::Ext(Ext::FG(two.clone()))));
+                out.push(c2.clone());
+                // a later retraction of every fact involved (the trigger is n0+1, the firing's own facts come after it)
+                let made = two.iter().filter(|x| matches!(x, Act::I | Act::L(_))).count() as u64;
+                for h in 1..=n0 + 1 + made {
+                    if h != n0 + 1 {
+                        out.push(format!("{} R{}", c2, h));
+                    }
+                }
+                if q > 0 {
+                    out.push(format!("{} Fr{}", c2, q));
+                }
+                for c in 0..m {
+                    if c == a || c == b {
+                        continue;
+                    }
+                    let three = vec![pool[a].clone(), pool[b].clone(), pool[c].clone()];
+                    out.push(format!("{} {}", g, show_op(&Op::Ext(Ext::FG(three)))));
+                }
+            }
+        }
+        // a result naming a fact made earlier in the same firing: insert, derive from it (and from p), then consume
+        let t = n0 + 1;
+        for acts in [
+            vec![Act::I, Act::L(vec![t + 1])],
+            vec![Act::I, Act::L(vec![t + 1, p]), Act::R(p)],
+            vec![Act::I, Act::L(vec![t + 1]), Act::R(t + 1)],
+            vec![Act::L(vec![p]), Act::L(vec![t + 1]), Act::R(p)],
+            vec![Act::L(vec![p]), Act::R(t + 1), Act::R(p)],
+            vec![Act::L(vec![p]), Act::R(p), Act::L(vec![p])],
+            vec![Act::R(p), Act::L(vec![p]), Act::R(p)],
+            vec![Act::L(vec![t]), Act::R(p)],
+        ] {
+            out.push(format!("{} {}", g, show_op(&Op::Ext(Ext::FG(acts)))));
+        }
+    }
+    let nr = if tier == "thorough" { n / 10 } else { n / 8 };
+    for i in 0..nr {
+        let mut b = B::new();
+        b.i();
+        let pre = rng.range(1, 4);
+        for _ in 0..pre {
+            let live = b.sim.live.clone();
+            match rng.below(4) {
+                0 => {
+                    b.i();
+                }
+                1 if live.len() >= 2 => {
+                    let f = *rng.pick(&live);
+                    let ps = pick_live(rng, &live, 1);
+                    b.j(f, ps);
+                }
+                _ => {
+                    let k = 1 + rng.below(2) as usize;
+                    let ps = pick_live(rng, &live, k);
+                    b.l(ps);
+                }
+            }
+        }
+        let groups = 1 + rng.below(2);
+        for _ in 0..groups {
+            let len = 2 + rng.below(2) as usize;
+            // the results are drawn against a copy of the simulation that is advanced result by result
+            let mut s2 = b.with_ops(&[]);
+            s2.push(Op::I); // the trigger fact
+            let mut acts: Vec<Act> = Vec::new();
+            for _ in 0..len {
+                let live = s2.sim.live.clone();
+                let wild = i % 8 == 7 && rng.chance(1, 3);
+                let a = match rng.below(8) {
+                    0 => Act::I,
+                    1 | 2 | 3 if !live.is_empty() => {
+                        let k = 1 + rng.below(2) as usize;
+                        if wild { Act::L(vec![rng.range(1, s2.n())]) } else { Act::L(pick_live(rng, &live, k)) }
+                    }
+                    4 | 5 | 6 if !live.is_empty() => Act::R(if wild { rng.range(1, s2.n()) } else { *rng.pick(&live) }),
+                    _ => Act::U(rng.range(1, s2.n())),
+                };
+                match &a {
+                    Act::I => {
+                        s2.push(Op::I);
+                    }
+                    Act::L(ps) => {
+                        s2.push(Op::L(ps.clone()));
+                    }
+                    Act::R(h) => {
+                        s2.push(Op::R(*h));
+                    }
+                    _ => {}
+                }
+                acts.push(a);
+            }
+            b.push(Op::Ext(Ext::FG(acts)));
+            // something afterwards: a retraction or a further derivation
+            let live = b.sim.live.clone();
+            if !live.is_empty() && rng.chance(2, 3) {
+                let h = *rng.pick(&live);
+                match rng.below(3) {
+                    0 => b.r(h),
+                    1 => {
+                        b.push(Op::Ext(Ext::F(Act::R(h))));
+                    }
+                    _ => {
+                        b.l(vec![h]);
+                    }
+                }
+            }
+        }
+        out.push(b.case());
+    }
+}
+
+/// PROMOTION of a derived fact to a stated one (`Q<x>` = tms_mut().remove_justifications(x) + tms_mut().add_explicit_justification(x)):
+/// afterwards x is an explicitly supported fact (it leaves only when retracted on request) and the facts derived from x before
+/// or after the call still depend on it. Every fixed support graph x every fact promoted (once, twice, after / before a further
+/// derivation or justification, after a sibling's promotion) x every ordered selection of up to 2 retractions; plus random
+/// well-formed histories with promotions of live facts at random places.
+fn promotions(rng: &mut Rng, n: usize, tier: &str, out: &mut Vec<String>) {
+    let graphs: Vec<(&str, u64)> = vec![
+        ("I L1 L2 L3", 4),
+        ("I L1 L1 L2,3", 4),
+        ("I L1 L1 L2 J4:3", 4),
+        ("I I L1 J3:2 L3", 4),
+        ("I L1 L1 L1 L2,3,4", 5),
+        ("I L1 L2 J2:3", 3),
+        ("I I L1 L3 J3:4 J3:2", 4),
+        ("I L1 X2 L2", 3),
+        ("I L1,1 L2,1,2", 3),
+        ("E L- L2 L1,3", 4),
+    ];
+    for (g, k) in graphs {
+        for x in 1..=k {
+            let mut mids = vec![format!("Q{}", x), format!("Q{} Q{}", x, x), format!("Q{} L{}", x, x), format!("L{} Q{}", x, x), format!("Q{} J{}:1", x, x)];
+            if x < k {
+                mids.push(format!("Q{} Q{}", x + 1, x));
+            }
+            for (mi, mid) in mids.iter().enumerate() {
+                let top = if mid.contains('L') { k + 1 } else { k };
+                out.push(format!("{} {}", g, mid));
+                for a in 1..=top {
+                    out.push(format!("{} {} R{}", g, mid, a));
+                    if mi >= 2 && tier != "thorough" {
+                        continue;
+                    }
+                    for b in 1..=top {
+                        if b != a {
+                            out.push(format!("{} {} R{} R{}", g, mid, a, b));
+                        }
+                    }
+                }
+                // the promotion between two retractions
+                for a in 1..=k {
+                    if a != x {
+                        out.push(format!("{} R{} {} R{}", g, a, mid, x));
+                    }
+                }
+            }
+        }
+    }
+    for i in 0..n / 8 {
+        let wf = i % 8 != 7;
+        let ops = random_history(rng, 10, 7, wf);
+        // promotions of live facts (any handle in 1 of 8) put in at one or two places behind the first operation
+        let mut v = ops.clone();
+        let times = 1 + rng.below(2);
+        for _ in 0..times {
+            let at = rng.range(1, v.len() as u64) as usize;
+            let live = replay_live(&v[..at]);
+            let created = count_created(&v[..at]);
+            let f = if wf && !live.is_empty() { *rng.pick(&live) } else if created > 0 { rng.range(1, created) } else { 1 };
+            if wf && live.is_empty() {
+                continue;
+            }
+            v.insert(at, Op::Q(f));
+        }
+        out.push(show_case(&v));
+    }
+}
+
 fn gen(rng: &mut Rng, n: usize, tier: &str) -> Vec<String> {
     let mut out = Vec::new();
     let (maxlen, maxf) = if tier == "thorough" { (6usize, 4u64) } else { (5usize, 4u64) };
@@ -1870,6 +2249,9 @@ fn gen(rng: &mut Rng, n: usize, tier: &str) -> Vec<String> {
     wide_justifications(rng, tier, &mut out);
     reach_families(rng, n, tier, &mut out);
     rule_name_family(rng, n, tier, &mut out);
+    // after everything else, so the cases above do not depend on it
+    multi_result_firings(rng, n, tier, &mut out);
+    promotions(rng, n, tier, &mut out);
     out
 }
 
@@ -1930,6 +2312,11 @@ fn remove_facts(ops: &[Op], gone: &[u64]) -> Vec<Op> {
             Op::X(f) => {
                 if !gone.contains(f) {
                     out.push(Op::X(map(*f)));
+                }
+            }
+            Op::Q(f) => {
+                if !gone.contains(f) {
+                    out.push(Op::Q(map(*f)));
                 }
             }
             Op::R(h) => {
@@ -2019,7 +2406,7 @@ fn verdict(ops: &[Op]) -> Option<&'static str> {
         let wf = match op {
             Op::L(ps) => ps.iter().all(|p| sim.live.contains(p)),
             Op::J(g, ps) => sim.live.contains(g) && ps.iter().all(|p| sim.live.contains(p)),
-            Op::X(g) => sim.live.contains(g),
+            Op::X(g) | Op::Q(g) => sim.live.contains(g),
             _ => true,
         };
         if !wf {
@@ -2237,6 +2624,28 @@ fn shrink_named(ops: &[Op], names: &[Option<usize>], case: &str) -> Vec<String> 
     out
 }
 
+/// a firing with several results: one result dropped (a single one left = the plain `F<a>`), one premise dropped
+fn group_simpler(acts: &[Act]) -> Vec<Op> {
+    let mut out = Vec::new();
+    for i in 0..acts.len() {
+        let mut v = acts.to_vec();
+        v.remove(i);
+        out.push(if v.len() == 1 { Op::Ext(Ext::F(v[0].clone())) } else { Op::Ext(Ext::FG(v)) });
+    }
+    for i in 0..acts.len() {
+        if let Act::L(ps) = &acts[i] {
+            if ps.len() > 1 {
+                for q in shrink_list(ps).into_iter().filter(|v| !v.is_empty()) {
+                    let mut v = acts.to_vec();
+                    v[i] = Act::L(q);
+                    out.push(Op::Ext(Ext::FG(v)));
+                }
+            }
+        }
+    }
+    out
+}
+
 fn shrink(case: &str) -> Vec<String> {
     let Some((ops, names)) = parse_case_named(case) else { return vec![] };
     if names.iter().any(|n| n.is_some()) {
@@ -2263,6 +2672,7 @@ fn shrink(case: &str) -> Vec<String> {
                 Op::Ext(Ext::F(Act::L(ps))) if ps.len() > 1 => {
                     shrink_list(ps).into_iter().filter(|v| !v.is_empty()).map(|v| Op::Ext(Ext::F(Act::L(v)))).collect()
                 }
+                Op::Ext(Ext::FG(acts)) => group_simpler(acts),
                 _ => vec![],
             };
             for v in simpler {
@@ -2312,7 +2722,7 @@ fn shrink(case: &str) -> Vec<String> {
     }
     let mut noncreating: Vec<String> = Vec::new();
     for i in (0..ops.len()).rev() {
-        if matches!(ops[i], Op::J(..) | Op::X(_) | Op::R(_)) {
+        if matches!(ops[i], Op::J(..) | Op::X(_) | Op::R(_) | Op::Q(_)) {
             let mut v = ops.clone();
             v.remove(i);
             noncreating.push(show_case(&v));
